@@ -251,6 +251,9 @@ def s7(ctx, rep, T):
                 if not any(t in rt for t in ('ItemStruct', 'ItemEnum', 'Variant', 'FieldsNamed', 'FieldsUnnamed', 'Fields::')):
                     continue
                 filtered = any(k2.get('f') == 'filter' and 'is_skipped' in json.dumps(k2.get('args')) for k2 in chain)
+                if not filtered and not chain:
+                    # loop form: the call sits behind `if is_skipped(member.attrs, target_os) { continue }` of the loop over the list
+                    filtered = pr.loop_skip_filter(c.get('guard', [])) is not None
                 if not filtered:
                     early.append((c, last))
         key = f'{fn}:members-read-after-skip-filter'
@@ -284,6 +287,16 @@ def s3(ctx, rep):
         names = [c['f'] for c in calls]
         site = {'file': f['file'], 'line': st[0]['line']}
         key = f'{fn_name}:{fld}'
+        if isinstance(root, dict) and root.get('k') == 'vecof' and root.get('items') and not [c for c in calls if c['f'] in FILTERS]:
+            # the list is filled by a loop: every `push` must sit behind the skip test of its loop, and behind nothing else
+            verdicts = [pr.loop_skip_filter(it.get('guard', [])) for it in root['items']]
+            ok = all(x is not None and not x[1] for x in verdicts)
+            extra = [vt.show(fr.get('c') or fr.get('scrut'))[:60] for x in verdicts if x for fr in x[1]]
+            rep.check(ok, 'S3', key + ':one-filter', 'loop: every push behind `if is_skipped(member.attrs, target_os) { continue }` only', f"{fn_name}: the {fld} list is filled in a loop where {'a member is pushed without the is_skipped(&member.attrs, target_os) test' if not extra else 'further conditions decide whether a member is taken: ' + '; '.join(extra)} — exactly the skip markers may drop members", site)
+            if ok:
+                rep.ok('S3', key + ':predicate', '!is_skipped(member.attrs, target_os) (loop form)')
+                rep.ok('S3', key + ':filter-before-parse', 'the member is parsed inside the skip guard')
+            continue
         filters = [c for c in calls if c['f'] in FILTERS]
         ok = len(filters) == 1 and filters[0]['f'] == 'filter'
         rep.check(ok, 'S3', key + ':one-filter', f"chain: {'.'.join(names)}", f"{fn_name}: the {fld} list is built through {[c['f'] for c in filters]} — exactly one `filter(!is_skipped)` may drop members (chain: {'.'.join(names)})", site)
